@@ -53,6 +53,9 @@ func directCheck(w *World, wo *WorldObs) (vs []lib.Violation, refs []*RefType) {
 	}
 	for i := range wo.Objs {
 		r, o := &w.News[i], &wo.Objs[i]
+		if o.Err == "EFault" || o.Err == "EOtherPanic" {
+			add("ctor-reports", fmt.Sprintf("%s escapes with %s: %s", reqText(w, r), o.Err, o.ErrText), typeTags(r.T)...)
+		}
 		if o.Err != "" {
 			// the counterpart of a successful construction must itself succeed
 			if k, src := originIndex(r.Origin); src >= 0 {
